@@ -561,53 +561,74 @@ def directed_roundtrips(ck, adapter, n):
 
 
 # ------------------------------------------------------------------ sessions
+SESSION_ADAPTERS = ['ReBenchLog', 'JMH', 'PlainSecondsLog', 'SavinaLog', 'ValidationLog']
+
+
 def session_cases(ck, n):
-    """whole sessions with a scripted process: what reaches the data file (observe_at: measurement lines)"""
+    """whole sessions with a scripted process: what reaches the data file (observe_at: measurement
+    lines). Most sessions have two suites with *different* gauge adapters (their invocations
+    alternate under round-robin), whose outputs contain noise that is a failure marker for the
+    other adapter only: what one adapter recovers must not depend on the other being in use."""
     import drive
     for idx in range(n):
-        adapter = ck.rng.choice(['ReBenchLog', 'JMH', 'PlainSecondsLog', 'SavinaLog', 'ValidationLog'])
+        adapters = [ck.rng.choice(SESSION_ADAPTERS)]
+        if ck.rng.random() < 0.7:
+            adapters.append(ck.rng.choice([a for a in SESSION_ADAPTERS if a != adapters[0]]))
         n_inv = ck.rng.choice([1, 2, 3])
-        cases = []
-        while len(cases) < n_inv:
-            c = gen_case(ck.rng, adapter)
-            # criteria / units with a tab or CR do not survive the data file (C07's finding): keep them out
-            if c['k'] <= 6 and not any('\t' in m[2] or '\t' in m[3] for dp in c['expected'] for m in dp):
-                cases.append(c)
+        suites = []
+        for si, adapter in enumerate(adapters):
+            cases = []
+            while len(cases) < n_inv:
+                c = gen_case(ck.rng, adapter)
+                # criteria / units with a tab or CR do not survive the data file (C07's finding): keep them out
+                if c['k'] <= 6 and not any('\t' in m[2] or '\t' in m[3] for dp in c['expected'] for m in dp):
+                    cases.append(c)
+            suites.append({'name': 'S%d' % si, 'adapter': adapter, 'cases': cases, 'n': 0})
+        sched = ck.rng.choice(['batch', 'round-robin']) if len(suites) > 1 else 'batch'
         wd = os.path.join(ck.scratch, 'c05s%d' % idx)
         os.makedirs(wd)
         cfg = {'default_experiment': 'T', 'default_data_file': 't.data', 'runs': {'invocations': n_inv},
-               'benchmark_suites': {'S': {'gauge_adapter': {'ReBenchLog': 'RebenchLog'}.get(adapter, adapter),
-                                          'command': 'h %(benchmark)s', 'benchmarks': ['B']}},
+               'benchmark_suites': {su['name']: {'gauge_adapter': {'ReBenchLog': 'RebenchLog'}.get(su['adapter'], su['adapter']),
+                                                 'command': 'h-%s %%(benchmark)s' % su['name'], 'benchmarks': ['B']}
+                                    for su in suites},
                'executors': {'E': {'path': '.', 'executable': 'exe'}},
-               'experiments': {'T': {'suites': ['S'], 'executions': ['E']}}}
+               'experiments': {'T': {'suites': [su['name'] for su in suites], 'executions': ['E']}}}
         conf = drive.write_config(wd, cfg)
-        state = {'n': 0}
 
-        def script(rec, cases=cases, state=state):
-            k = state['n']
-            state['n'] += 1
-            return drive.Outcome(0, cases[min(k, len(cases) - 1)]['text'])
-        r = drive.run_session(wd, [conf], script)
+        def script(rec, suites=suites):
+            for su in suites:
+                if (' h-%s ' % su['name']) in (' ' + str(rec['args']) + ' '):
+                    k = su['n']
+                    su['n'] += 1
+                    return drive.Outcome(0, su['cases'][min(k, len(su['cases']) - 1)]['text'])
+            return drive.Outcome(0, '')
+        r = drive.run_session(wd, (['-s', sched] if sched != 'batch' else []) + [conf], script)
         ck.impl_traces += 1
-        rows = drive.read_data_file(os.path.join(wd, 't.data'))['rows']
-        want = []
-        for i, c in enumerate(cases):
-            for dp in c['expected']:
-                for m in dp:
-                    want.append((i + 1, m[1], m[2], m[3], m[4]))
-        inp = {'kind': 'session', 'adapter': adapter, 'outputs': [c['text'] for c in cases]}
-        ck.count('session:' + adapter)
-        ck.case(nontrivial_key=('session', adapter, tuple(c['text'] for c in cases)))
+        all_rows = drive.read_data_file(os.path.join(wd, 't.data'))['rows']
+        inp = {'kind': 'session', 'adapters': adapters, 'scheduler': sched,
+               'outputs': {su['name']: [c['text'] for c in su['cases']] for su in suites}}
+        ck.count('session:' + '+'.join(adapters))
+        ck.count('session-suites:%d' % len(suites))
+        ck.case(nontrivial_key=('session', tuple(adapters), sched, tuple(c['text'] for su in suites for c in su['cases'])))
         problem = None
         if r.crash or r.status() != 'ok':
             problem = 'session ended %s %r' % (r.status(), r.crash)
-        elif len(rows) != len(want):
-            problem = 'rows %d, expected %d' % (len(rows), len(want))
-        else:
+        for su in suites:
+            if problem:
+                break
+            rows = [row for row in all_rows if len(row) > 7 and row[7] == su['name']]
+            want = []
+            for i, c in enumerate(su['cases']):
+                for dp in c['expected']:
+                    for m in dp:
+                        want.append((i + 1, m[1], m[2], m[3], m[4]))
+            if len(rows) != len(want):
+                problem = 'suite %s (%s): rows %d, expected %d' % (su['name'], su['adapter'], len(rows), len(want))
+                break
             for row, w in zip(rows, want):
                 got = (int(row[0]), int(row[1]), row[4], row[3])
                 if got != (w[0], w[1], w[2], w[3]):
-                    problem = 'row %r, expected %r' % (got, w[:4])
+                    problem = 'suite %s: row %r, expected %r' % (su['name'], got, w[:4])
                     break
                 v = w[4]
                 if v[0] == 'f':
@@ -623,8 +644,9 @@ def session_cases(ck, n):
                         problem = 'value %r, expected %r' % (row[2], v[1])
                         break
         if problem:
-            ck.oracle_fail('session_rows', inp, {'problem': problem, 'status': r.status(), 'rows': rows[:10]},
-                           {'adapter': adapter, 'eol': 'crlf' if any('\r' in c['text'] for c in cases) else 'lf'})
+            ck.oracle_fail('session_rows', inp, {'problem': problem, 'status': r.status(), 'rows': all_rows[:10]},
+                           {'adapter': '+'.join(adapters),
+                            'eol': 'crlf' if any('\r' in c['text'] for su in suites for c in su['cases']) else 'lf'})
 
 
 # -------------------------------------------------------------------- corpus
@@ -688,7 +710,7 @@ def run(ck):
         ck.count('budget-exceeded:cases-skipped', IMPL_BUDGET['skipped'])
         print('BUDGET property=C05 ' + msg)
     check_recognisers(ck, 2000 if quick else 100000)
-    session_cases(ck, 12 if quick else 200)
+    session_cases(ck, 24 if quick else 300)
 
 
 def replay(ck, data):
